@@ -33,9 +33,11 @@ Step(ev) ==
     [] ev.a = "scribble" -> Scribble(ev.arg.o + 1)
     [] ev.a = "fini"     -> Fini(ev.arg.o + 1)
     [] ev.a = "cparse"   -> CParseX(ev.arg.c, ev.obs.ret, ev.obs.col)
+    [] ev.a = "cprint"   -> CPrint(ev.arg.c)
     [] OTHER             -> FALSE
 
-Matches(ev) == \A k \in DOMAIN obs'.exp : k \in DOMAIN ev.obs /\ obs'.exp[k] = ev.obs[k]
+Matches(ev) == \A k \in DOMAIN obs'.exp :
+                  k \in DOMAIN ev.obs /\ ((k = "ret" /\ obs'.exp[k] = "any") \/ obs'.exp[k] = ev.obs[k])
 
 TraceInit ==
   /\ l = 1 /\ kind = "axis" /\ ops = 0 /\ nid = 1
